@@ -59,6 +59,8 @@ pub fn main(tier: Tier, seed: u64) -> i32 {
     struct Pub {
         name: String,
         case: MpcCase,
+        /// explicit input assignments instead of the enumeration of the first six input bits
+        explicit: Option<Vec<Vec<Vec<bool>>>>,
     }
     let mut pubs = vec![];
     for n in [2usize, 3, 4] {
@@ -84,6 +86,7 @@ pub fn main(tier: Tier, seed: u64) -> i32 {
                     let masks: Vec<u32> = if tier.is_thorough() { vec![0, 0b101 & ((1 << n) - 1)] } else { vec![(fi as u32 * 5 + 1) & ((1 << n) - 1)] };
                     for tmp_mask in masks {
                         pubs.push(Pub {
+                            explicit: None,
                             name: format!("{name}/n{n}/e{p_eval}/o{p_out:?}/t{tmp_mask:b}"),
                             case: MpcCase {
                                 circ: c.clone(),
@@ -98,9 +101,34 @@ pub fn main(tier: Tier, seed: u64) -> i32 {
             }
         }
     }
+    // large messages (> 64 KiB): a wide input layer and a multi-chunk garbled table
+    {
+        let wide = 33_000usize;
+        let mut b = crate::circuits::B::new(&[wide, 1]);
+        let x = b.xor(0, (wide - 1) as u32);
+        let y = b.xor(x, wide as u32);
+        let c = b.out(&[y]);
+        let zeros = vec![vec![false; wide], vec![false]];
+        let ones = vec![vec![true; wide], vec![true]];
+        let alt = vec![(0..wide).map(|i| i % 2 == 0).collect(), vec![true]];
+        pubs.push(Pub { name: "wide_inputs/n2/e0".into(), case: MpcCase { circ: c.clone(), inputs: zeros.clone(), p_eval: 0, p_out: vec![0, 1], tmp_mask: 0 }, explicit: Some(vec![zeros.clone(), ones.clone(), alt.clone()]) });
+        pubs.push(Pub { name: "wide_inputs/n2/e1".into(), case: MpcCase { circ: c, inputs: zeros.clone(), p_eval: 1, p_out: vec![1], tmp_mask: 0b10 }, explicit: Some(vec![zeros, ones, alt]) });
+        let chain = crate::circuits::and_chain(2, 1001);
+        let ins: Vec<Vec<Vec<bool>>> = (0..4u64).map(|m| chain.inputs_from_mask(m)).collect();
+        pubs.push(Pub { name: "chain1001/n2/e0".into(), case: MpcCase { circ: chain, inputs: ins[0].clone(), p_eval: 0, p_out: vec![0, 1], tmp_mask: 0b01 }, explicit: Some(ins) });
+    }
     // executions: (pub index, input mask, tape)
     let mut execs: Vec<(usize, u64, u64)> = vec![];
     for (pi, p) in pubs.iter().enumerate() {
+        if let Some(ex) = &p.explicit {
+            for m in 0..ex.len() as u64 {
+                execs.push((pi, m, 0));
+            }
+            for tape in 1..tapes.min(8) as u64 {
+                execs.push((pi, (ex.len() - 1) as u64, tape));
+            }
+            continue;
+        }
         let t = p.case.circ.total_inputs().min(6);
         for m in 0..(1u64 << t) {
             execs.push((pi, m, 0));
@@ -111,7 +139,10 @@ pub fn main(tier: Tier, seed: u64) -> i32 {
     }
     let results = par_map(&execs, |w, _, (pi, m, tape)| {
         let mut case = pubs[*pi].case.clone();
-        case.inputs = case.circ.inputs_from_mask(*m);
+        case.inputs = match &pubs[*pi].explicit {
+            Some(ex) => ex[*m as usize].clone(),
+            None => case.circ.inputs_from_mask(*m),
+        };
         let r = run_case(&case, mix(seed, *tape * 1000 + *pi as u64), w);
         let ok = check_honest(&case, &r);
         let payload_hash = {
